@@ -32,6 +32,7 @@ def _violations(ctx, fails, recs, origin):
   byrec = {r["id"]: r for r in recs}
   for rid, tick, reg, k, prop, clause, expected in fails:
     src, sdoc, ad = origin[rid]
+    sdoc = json.loads(sdoc) if isinstance(sdoc, str) else sdoc
     r = byrec[rid]
     j = r["times"].index(tick)
     el = [x for x in r["obs"][j] if x["R"] == reg and x["k"] == k]
@@ -88,35 +89,42 @@ def run(ctx):
       jobs.append({"id": rid, "ad": ad, "cat": "stylecat", "times": times, "focus": []})
       origin[rid] = ("random", None, ad)
 
-  recs = R.observe_all(jobs)
-  good = []
-  for r in recs:
-    src, d, ad = origin[r["id"]]
-    d = d if d is not None else ad
-    if "error" in r:
-      f = {"has_ruby": "ruby" in d["kind"], "error": r["error"][:80], "source": src if src == "random" else "family", "n": d["n"]}
-      ctx.violation("c03_snapshot_raised", {"source": src, "doc": d, "traceback": r["tb"]}, f, r["error"])
-      continue
-    if ad is not None:
-      r["D"] = ad.get("D", 2)
-      origin[r["id"]] = (src, r["doc"], ad)      # the styled document (what the spec sees) describes failures
-    good.append(r)
-  for r in good:
-    ctx.evaluations += sum(len(s["st"]) for ob in r["obs"] for s in ob)
-    for j, ob in enumerate(r["obs"]):
-      if any(s["k"] for s in ob):
-        ctx.nontrivial((r["id"], r["times"][j]))
-      ctx.count("snapshots")
-      ctx.count("elements_judged", len(ob))
-  ctx.traces += len(good)
-  strip = [{k: v for k, v in r.items() if k != "D"} for r in good]
-  fails = R.validate(ctx, strip, "c03", nproc=8 if thorough else 6)
-  _violations(ctx, fails, good, origin)
-  if good:
-    g = good[0]
-    ctx.sample({"source": origin[g["id"]][0], "doc": g["doc"], "times": g["times"][:2], "obs": [ob[:3] for ob in g["obs"][:2]]})
-    g = good[-1]
-    ctx.sample({"source": origin[g["id"]][0], "times": g["times"][:2], "obs": [ob[:2] for ob in g["obs"][:1]]})
+  # observe and validate in batches (bounded memory in the thorough tier)
+  batch = 16000 if thorough else 100000
+  sampled = False
+  for lo in range(0, len(jobs), batch):
+    part = jobs[lo:lo + batch]
+    recs = R.observe_all(part)
+    good = []
+    for r in recs:
+      src, d, ad = origin[r["id"]]
+      d = d if d is not None else ad
+      d = json.loads(d) if isinstance(d, str) else d
+      if "error" in r:
+        f = {"has_ruby": "ruby" in d["kind"], "error": r["error"][:80], "source": src if src == "random" else "family", "n": d["n"]}
+        ctx.violation("c03_snapshot_raised", {"source": src, "doc": d, "traceback": r["tb"]}, f, r["error"])
+        continue
+      if ad is not None:
+        r["D"] = ad.get("D", 2)
+        origin[r["id"]] = (src, r["doc"], ad)      # the styled document (what the spec sees) describes failures
+      good.append(r)
+    for r in good:
+      ctx.evaluations += sum(len(s["st"]) for ob in r["obs"] for s in ob)
+      for j, ob in enumerate(r["obs"]):
+        if any(s["k"] for s in ob):
+          ctx.nontrivial((r["id"], r["times"][j]))
+        ctx.count("snapshots")
+        ctx.count("elements_judged", len(ob))
+    ctx.traces += len(good)
+    strip = [{k: v for k, v in r.items() if k != "D"} for r in good]
+    fails = R.validate(ctx, strip, "c03", nproc=8 if thorough else 6)
+    _violations(ctx, fails, good, origin)
+    if good and not sampled:
+      sampled = True
+      g = good[0]
+      ctx.sample({"source": origin[g["id"]][0], "doc": g["doc"], "times": g["times"][:2], "obs": [ob[:3] for ob in g["obs"][:2]]})
+      g = good[-1]
+      ctx.sample({"source": origin[g["id"]][0], "times": g["times"][:2], "obs": [ob[:2] for ob in g["obs"][:1]]})
   ctx.exhaustive = False
   ctx.assume("elements are matched by id (e<k>, r<k>); which elements appear in a snapshot is decided by C01, which properties "
              "they carry by C13")
